@@ -237,7 +237,7 @@ def install(I):
         k = args[0]
         if k is None:
             return (None, mk_error(I, 'nil key'))
-        return (TermBytes(mk(I, 'marshalpriv', u64term(k.v.ktype), k.v.s)), None)
+        return (TermBytes(mk(I, 'marshalpriv', u64term(k.v.ktype), k.v.s, blen=68)), None)
 
     def unmarshal_priv(I, args, ins):
         b = I.bytes_term(args[0])
@@ -253,7 +253,7 @@ def install(I):
 
     def marshal_pub(I, args, ins):
         k = args[0]
-        return (TermBytes(mk(I, 'marshalpub', u64term(k.v.ktype), k.v.t)), None)
+        return (TermBytes(mk(I, 'marshalpub', u64term(k.v.ktype), k.v.t, blen=36)), None)
 
     def unmarshal_pub(I, args, ins):
         b = I.bytes_term(args[0])
